@@ -447,6 +447,7 @@ func genC12Case(r *Rng, tier string) (*c12Case, []string, bool) {
 		// initial tempo at tick 0 in some track, further tempo changes anywhere (all at most tempoCap)
 		i := r.Intn(ntr)
 		items[i] = append([]c12Item{{0, c12Tempo(pickTempo())}}, items[i]...)
+		tags = append(tags, "tempo-at-0")
 		nch := r.Pick(0, 0, 1, 2, 4)
 		if nch > 0 {
 			tags = append(tags, "tempo-changes")
@@ -515,7 +516,11 @@ func genC12Case(r *Rng, tier string) (*c12Case, []string, bool) {
 	}
 	// port map
 	np := r.Range(1, 3)
-	switch p := r.Intn(12); {
+	pmKind := r.Intn(11)
+	if r.Chance(1, 30) {
+		pmKind = 11
+	}
+	switch p := pmKind; {
 	case p < 3:
 		c.pm = [][2]int{{-1, r.Intn(np)}}
 		tags = append(tags, "pm=default-only")
@@ -605,6 +610,11 @@ func genC12Case(r *Rng, tier string) (*c12Case, []string, bool) {
 }
 
 func genC12(r *Rng, tier string, emit func(Case)) {
+	// NewRng(seed) starts seed n exactly n-1 outputs further down the *same* splitmix sequence as seed 1, and
+	// generators that consume a data-dependent number of values re-synchronise on it (seeds 1, 3, 4, 5 gave
+	// identical files). Fork first: the forked state is a mixed output, unrelated between seeds.
+	r = r.Fork()
+	rPlay := r.Fork()
 	// IsPlayable on every first byte, three shapes each
 	for b := 0; b < 256; b++ {
 		for _, m := range [][]byte{{byte(b)}, {byte(b), byte(r.Intn(128)), byte(r.Intn(128))}, append([]byte{byte(b)}, r.Bytes(r.Range(1, 6))...)} {
@@ -612,12 +622,12 @@ func genC12(r *Rng, tier string, emit func(Case)) {
 		}
 	}
 	emit(Case{Op: "c12.playable -", Tags: []string{"playable-probe"}})
-	n := 260
+	n := 700
 	if tier == "thorough" {
 		n = 5000
 	}
 	for i := 0; i < n; i++ {
-		c, tags, nt := genC12Case(r, tier)
+		c, tags, nt := genC12Case(rPlay, tier)
 		emit(Case{Op: c.String(), Tags: tags, NonTrivial: nt})
 	}
 }
